@@ -56,6 +56,7 @@ type Check struct {
 	rechecks      int64
 	recheckBad    int64
 	foreign       int64
+	coverage      map[string]interface{}
 }
 
 func (c *Check) count(k string, n int64) {
@@ -899,6 +900,9 @@ func runCheck(prop, tier string, seed uint64, workers, budgetOverride int, keep,
 		go func() { guardErr <- guardTests(env) }()
 	}
 
+	if tier == "thorough" {
+		gen.MaxDepth = 2000
+	}
 	known := loadKnown()
 	budget := tierBudget(prop, tier, budgetOverride)
 	t0 := time.Now()
@@ -926,6 +930,7 @@ func runCheck(prop, tier string, seed uint64, workers, budgetOverride int, keep,
 	}
 	// replay re-check of a sample of clean seeds: same plan, fresh process, same event log
 	c.recheckSample(fixed)
+	c.measureCoverage(fixed)
 	exploreWall := time.Since(t0)
 	logf("%s: explored %d plans / %d ops in %.1fs (%d refs)", prop, c.evals, c.ops, exploreWall.Seconds(), func() int64 { n, _, _ := c.refs.Count(); return n }())
 
@@ -1058,6 +1063,107 @@ func hasDim(dims []string, d string) bool {
 		}
 	}
 	return false
+}
+
+// measureCoverage re-executes a sample of the batch with a coverage build of
+// the worker (-coverpkg = module under test) and records statement coverage
+// of the module under test reached by this property's workload.
+func (c *Check) measureCoverage(fixed []*plan.Plan) {
+	if c.prop == "C12" {
+		// same library code as the other properties; skip the extra build for the race check
+		return
+	}
+	t0 := time.Now()
+	if err := c.env.buildCover(); err != nil {
+		logf("coverage build failed (not fatal): %v", err)
+		return
+	}
+	sample := append([]*plan.Plan{}, fixed...)
+	if len(sample) > 300 {
+		step := len(sample) / 300
+		var s2 []*plan.Plan
+		for i := 0; i < len(sample); i += step {
+			s2 = append(s2, sample[i])
+		}
+		sample = s2
+	}
+	sample = append(sample, c.randomPlans(9999, 300)...)
+	type blk struct {
+		stmts int
+		hit   bool
+	}
+	blocks := map[string]*blk{}
+	var mu sync.Mutex
+	var wg sync.WaitGroup
+	for _, p := range sample {
+		wg.Add(1)
+		go func(p *plan.Plan) {
+			defer wg.Done()
+			prof := c.env.RunCover(p)
+			mu.Lock()
+			defer mu.Unlock()
+			for _, l := range strings.Split(prof, "\n") {
+				if l == "" || strings.HasPrefix(l, "mode:") {
+					continue
+				}
+				var key string
+				var n, cnt int
+				i := strings.LastIndex(l, " ")
+				if i < 0 {
+					continue
+				}
+				j := strings.LastIndex(l[:i], " ")
+				if j < 0 {
+					continue
+				}
+				key = l[:j]
+				fmt.Sscan(l[j+1:i], &n)
+				fmt.Sscan(l[i+1:], &cnt)
+				b := blocks[key]
+				if b == nil {
+					b = &blk{stmts: n}
+					blocks[key] = b
+				}
+				if cnt > 0 {
+					b.hit = true
+				}
+			}
+		}(p)
+	}
+	wg.Wait()
+	total, hit := 0, 0
+	perPkg := map[string][2]int{}
+	for k, b := range blocks {
+		if strings.Contains(k, "/example/") || strings.Contains(k, "/scripts/") || strings.Contains(k, "/testutil/") {
+			continue
+		}
+		total += b.stmts
+		pkg := k
+		if i := strings.LastIndex(pkg, "/"); i > 0 {
+			pkg = pkg[:i]
+		}
+		v := perPkg[pkg]
+		v[1] += b.stmts
+		if b.hit {
+			hit += b.stmts
+			v[0] += b.stmts
+		}
+		perPkg[pkg] = v
+	}
+	c.mu.Lock()
+	c.coverage = map[string]interface{}{"plans_sampled": len(sample), "statements": total, "covered": hit}
+	if total > 0 {
+		c.coverage["percent"] = float64(hit*1000/total) / 10
+		pp := map[string]string{}
+		for k, v := range perPkg {
+			if v[1] > 0 {
+				pp[strings.TrimPrefix(k, c.env.ModPath)] = fmt.Sprintf("%d/%d", v[0], v[1])
+			}
+		}
+		c.coverage["per_package"] = pp
+	}
+	c.mu.Unlock()
+	logf("%s: statement coverage of the module under test over %d sampled plans: %d/%d (%.1fs)", c.prop, len(sample), hit, total, time.Since(t0).Seconds())
 }
 
 func firstLine(s string) string {
